@@ -26,14 +26,20 @@ static uint8_t vpl_b64valid(const uint8_t *s, uint32_t n, uint32_t hint) { uint8
 static QAD *c06_b64enc(QAD *raw) { uint32_t n = raw->f1; if (n == 0) return qb_new(0, 0); ASSERT(!numB(raw).isnum, "toBase64 of an abstract number string");
   if (c06_is_lit(raw, "n,,", 3)) return qb_from((const uint8_t*)"biws", 4);
   uint32_t h = qb_hint(raw); ASSERT(2 * n <= QB_CAP, "QByteArray capacity of the model exceeded (base64)"); QAD *d = qb_new(2 * n, 2 * h); vpl_b64enc(qb_bytes(d), qb_bytes(raw), n, h); qb_bytes(d)[2 * n] = 0; return d; }
+#define C06_B64CAP 3
+static struct { QAD *txt; QAD *out; uint8_t ok; } c06_b64tab[C06_B64CAP]; static uint32_t c06_nb64;
 static QAD *c06_b64dec(QAD *enc, uint8_t *ok) { *ok = 1; uint32_t n = enc->f1; if (n == 0) return qb_new(0, 0);
   if (c06_is_lit(enc, "biws", 4)) return qb_from((const uint8_t*)"n,,", 3);
   uint32_t h = qb_hint(enc); uint8_t valid = vpl_b64valid(qb_bytes(enc), n, h);
-  uint8_t avalid = vp_bool(); uint32_t alen = vp_u32(); uint8_t a0 = vp_u8(), a1 = vp_u8(), a2 = vp_u8(); ASSUME(alen <= 3);
+  /* outside the image: arbitrary outcome (invalid, or <= 3 arbitrary bytes), but the same text always decodes the same way */
+  uint8_t avalid = vp_bool(); uint32_t alen = vp_u32(); uint8_t a0 = vp_u8(), a1 = vp_u8(), a2 = vp_u8(); ASSUME(alen <= 3); if (!avalid) alen = 0;
+  for (uint32_t k = 0; k < C06_B64CAP; k++) { if (k >= c06_nb64) break; if (qb_eq(c06_b64tab[k].txt, enc)) { QAD *p = c06_b64tab[k].out; avalid = c06_b64tab[k].ok; alen = p->f1; a0 = qb_bytes(p)[0]; a1 = qb_bytes(p)[1]; a2 = qb_bytes(p)[2]; break; } }
   uint32_t hh = (h + 1) / 2 < 3 ? 3 : (h + 1) / 2; QAD *d = qb_new(0, hh); uint8_t *o = qb_bytes(d); const uint8_t *s = qb_bytes(enc);
   if (valid) { for (uint32_t i = 0; i < QB_CAP / 2; i++) { if (2 * i + 1 >= n || 2 * i + 1 >= h + 1) break; o[i] = (uint8_t)(((s[2 * i] - 'A') << 4) | (s[2 * i + 1] - 'a')); } d->f1 = n / 2; }
-  else { o[0] = a0; o[1] = a1; o[2] = a2; d->f1 = avalid ? alen : 0; *ok = avalid; }
-  o[d->f1] = 0; return d; }
+  else { o[0] = a0; o[1] = a1; o[2] = a2; d->f1 = alen; *ok = avalid; }
+  o[d->f1] = 0;
+  ASSERT(c06_nb64 < C06_B64CAP, "base64 decode table capacity"); c06_b64tab[c06_nb64].txt = qad_ref(enc); c06_b64tab[c06_nb64].out = d; c06_b64tab[c06_nb64].ok = *ok; c06_nb64++;
+  return qad_ref(d); }
 void _ZNK10QByteArray8toBase64E6QFlagsINS_12Base64OptionEE(char *ret, char *self, uint32_t opt) { ASSERT(opt == 0, "base64 options other than the default are not modelled"); QBD(ret) = c06_b64enc(QBD(self)); }
 void _ZNK10QByteArray8toBase64Ev(char *ret, char *self) { QBD(ret) = c06_b64enc(QBD(self)); }
 void _ZN10QByteArray10fromBase64ERKS_(char *ret, char *enc) { uint8_t ok; QBD(ret) = c06_b64dec(QBD(enc), &ok); }
@@ -63,11 +69,20 @@ uint8_t _ZNK10QByteArray10startsWithEPKc(char *self, char *s) { QAD *a = QBD(sel
 static uint32_t vpl_split_scan(const uint8_t *s, uint32_t n, uint32_t hint, uint8_t sep, uint32_t *st, uint32_t *ln) { uint32_t cur = 0, start = 0;
   for (uint32_t i = 0; i < hint; i++) { if (i >= n) break; if (s[i] == sep) { if (cur < C06_MAXP) { st[cur] = start; ln[cur] = i - start; } cur++; start = i + 1; } }
   if (cur < C06_MAXP) { st[cur] = start; ln[cur] = n - start; } return cur + 1; }
+/* structure hint: the harness may register, for ONE message it has built from fixed-length parts, where the separators are.
+   split() on exactly that block then uses the (concrete) boundaries - after asserting that they are right - instead of
+   scanning symbolic bytes, so every piece has a concrete length. */
+static QAD *c06_hint_blk; static uint32_t c06_hint_np, c06_hint_st[C06_MAXP], c06_hint_ln[C06_MAXP]; static uint8_t c06_hint_sep;
+void vp_split_hint_begin(char *ba, uint8_t sep) { c06_hint_blk = QBD(ba); c06_hint_np = 0; c06_hint_sep = sep; }
+void vp_split_hint_piece(uint32_t len) { ASSERT(c06_hint_np < C06_MAXP, "split hint: too many pieces"); c06_hint_st[c06_hint_np] = c06_hint_np ? c06_hint_st[c06_hint_np - 1] + c06_hint_ln[c06_hint_np - 1] + 1 : 0; c06_hint_ln[c06_hint_np] = len; c06_hint_np++; }
 void _ZNK10QByteArray5splitEc(char *ret, char *self, uint8_t sep) { QAD *a = QBD(self); ASSERT(!numB(a).isnum, "split of an abstract number string"); uint32_t h = qb_hint(a);
-  uint32_t st[C06_MAXP], ln[C06_MAXP]; for (uint32_t k = 0; k < C06_MAXP; k++) { st[k] = 0; ln[k] = 0; }
-  uint32_t np = vpl_split_scan(qb_bytes(a), a->f1, h, sep, st, ln); ASSERT(np <= C06_MAXP, "QList capacity of the model exceeded (split)"); ASSUME(np <= C06_MAXP);
+  uint32_t st[C06_MAXP], ln[C06_MAXP]; for (uint32_t k = 0; k < C06_MAXP; k++) { st[k] = 0; ln[k] = 0; } uint32_t np;
+  if (a == c06_hint_blk && sep == c06_hint_sep && c06_hint_np > 0) { np = c06_hint_np; uint32_t total = c06_hint_st[np - 1] + c06_hint_ln[np - 1]; ASSERT(a->f1 == total, "split hint: total length"); ASSUME(a->f1 == total);
+    uint32_t k = 0; for (uint32_t i = 0; i < QB_CAP; i++) { if (i >= total) break; uint8_t is_sep = (k + 1 < np && i == c06_hint_st[k + 1] - 1); ASSERT((qb_bytes(a)[i] == sep) == is_sep, "split hint: separator positions"); if (is_sep) k++; }
+    for (uint32_t j = 0; j < C06_MAXP; j++) { st[j] = c06_hint_st[j]; ln[j] = c06_hint_ln[j]; } }
+  else { np = vpl_split_scan(qb_bytes(a), a->f1, h, sep, st, ln); ASSERT(np <= C06_MAXP, "QList capacity of the model exceeded (split)"); ASSUME(np <= C06_MAXP); }
   struct ld *l = ld_new(np);
-  for (uint32_t k = 0; k < C06_MAXP; k++) { if (k >= np) break; QAD *p = qb_new(ln[k], h); vpl_copy8(qb_bytes(p), qb_bytes(a) + st[k], ln[k], h); qb_bytes(p)[ln[k]] = 0; l->array[k] = (char*)p; }
+  for (uint32_t k = 0; k < C06_MAXP; k++) { if (k >= np) break; QAD *p = qb_new(ln[k], ln[k] < h ? (a == c06_hint_blk ? ln[k] : h) : h); vpl_copy8(qb_bytes(p), qb_bytes(a) + st[k], ln[k], h); qb_bytes(p)[ln[k]] = 0; l->array[k] = (char*)p; }
   *(struct ld**)ret = l; }
 #endif
 
@@ -135,3 +150,24 @@ void vp_sym_bytes_exact(char *out, uint32_t n) { ASSERT(n <= 16, "symbolic bytes
 /* exactly n symbolic UTF-16 units (concrete length keeps every later offset concrete) */
 void vp_sym_string_exact(char *out, uint32_t n) { ASSERT(n <= 8, "symbolic string bound"); QAD *d = qs_new(n, n); uint16_t *p = qs_chars(d); for (uint32_t i = 0; i < 8; i++) { if (i >= n) break; p[i] = vp_u16(); } *(QAD**)out = d; }
 #endif
+/* per-instance configuration constants (cdefs C06_CFG0..5): lets one translated program serve several length variants */
+#ifndef C06_CFG0
+#define C06_CFG0 0
+#endif
+#ifndef C06_CFG1
+#define C06_CFG1 0
+#endif
+#ifndef C06_CFG2
+#define C06_CFG2 0
+#endif
+#ifndef C06_CFG3
+#define C06_CFG3 0
+#endif
+#ifndef C06_CFG4
+#define C06_CFG4 0
+#endif
+#ifndef C06_CFG5
+#define C06_CFG5 0
+#endif
+uint32_t vp_cfg(uint32_t i) { return i == 0 ? C06_CFG0 : i == 1 ? C06_CFG1 : i == 2 ? C06_CFG2 : i == 3 ? C06_CFG3 : i == 4 ? C06_CFG4 : C06_CFG5; }
+uint32_t vp_diglen(void) { return C06_DIGLEN; }
